@@ -172,10 +172,17 @@ def check_C10(tier, only):
                   ['relations decided: A_ig(T,V,N) = sum_i A_ig^{pure i}(T,V,N_i) (ideal mixing) and A_ig(T, lam V, lam N) = lam A_ig (extensivity) for Joback and DIPPR models'],
                   ['IdealGas::ideal_gas_helmholtz_energy<Sym>', 'Joback::ln_lambda3', 'Dippr::ln_lambda3', 'Components::subset'],
                   {'components': 2})
-    hs = C10_EK if tier == 'thorough' else ['c10_entropy']
+    hs = C10_EK if tier == 'thorough' else []   # quick: the selector is decided for all getters on the MIR (getter map) in seconds
     cov['E-K'] = ek_part(out, 'C10', tier, [('ext', h) for h in hs], only,
                          ['C10-a: with PolyEos as Residual + IdealGas (polynomial ideal part overriding the provided ln-based method): f(Total) = f(IdealGas) + f(Residual) exactly and each part is its closed form, '
                           'for one getter per derivative order arm of get_or_compute_derivative (quick: the first-derivative arm, entropy, with concrete generic-position coefficients; thorough: 2+2 symbolic coefficients and all arms); p_ig = rho R T and Total = IdealGas + Residual for the pressure family (thorough)'], nsym=2 if tier == 'thorough' else 0, timeout=10800 if tier == 'thorough' else 3000)
+    if not only or 'getter_map' in only:
+        import getters
+        try:
+            getters.getter_map_part(out, 'C10', cov, 'C10')
+        except Exception:
+            import traceback
+            out.inconclusive.append('getter map failed: ' + traceback.format_exc()[-800:])
     out.coverage = cov
     return out.finish()
 
@@ -197,6 +204,13 @@ def check_C01(tier, only):
                    'every getter must return exactly the closed-form partial derivative (sign, seeding, cache key)' % ('4' if tier == 'thorough' else '1')],
                   nsym=4 if tier == 'thorough' else 1, timeout=10800 if tier == 'thorough' else 2400)
     cov['E-K'] = ekc
+    if not only or 'getter_map' in only:
+        import getters
+        try:
+            getters.getter_map_part(out, 'C01', cov, 'C01')
+        except Exception:
+            import traceback
+            out.inconclusive.append('getter map failed: ' + traceback.format_exc()[-800:])
     out.coverage = cov
     return out.finish()
 
@@ -643,9 +657,17 @@ def check_C11(tier, only):
     cov = ek_part(out, 'C11', tier, [('incrate', h) for h in inc] + [('ext', h) for h in ext], only,
                   ['cache level (in-crate): every history of <= %d calls of Cache::get_or_insert_with_{f64,d64,d2_64,hd64,hd364} with symbolic method, symbolic Derivative keys (2 components) and an oracle of arbitrary f64 '
                    'bit patterns returns bitwise the oracle value of the requested key; also across a clone taken between calls' % (3 if tier == 'thorough' else 2),
-                   'getter level: for 6 (quick) / all 56 (thorough) ordered pairs (h, g) of the 8 scalar residual getters (pairs involving the component-indexed getters dp_dni, dmu_dni, mu, dmu_dt did not finish in 50 min and are not run): g evaluated after h on the same state equals the closed form (one-monomial model A = V^3 T^3 N0^2 N1^2, concrete component indices: the solver decides the compiled plumbing, not the values)',
+                   'getter level (Kani): for 2 (quick) / all 56 (thorough) ordered pairs (h, g) of the 8 scalar residual getters (pairs involving the component-indexed getters dp_dni, dmu_dni, mu, dmu_dt did not finish in 50 min and are not run): g evaluated after h on the same state equals the closed form (one-monomial model A = V^3 T^3 N0^2 N1^2, concrete component indices: the solver decides the compiled plumbing, not the values)',
+                   'getter level (E-M getter map): every derivative getter of residual_properties.rs / properties.rs reduces on its MIR to sel(c, ideal, sign * R[key]) where R[key] is the keyed cache lookup get_or_compute_derivative_residual: no getter reads or writes the cache in any other way (18 getters, symbolic selector and component indices, z3)',
                    'thread schedules are not covered (Kani does not model concurrency): not claimed'],
                   timeout=7200 if tier == 'thorough' else 2400)
+    if not only or 'getter_map' in only:
+        import getters
+        try:
+            getters.getter_map_part(out, 'C11', cov, 'C11')
+        except Exception:
+            import traceback
+            out.inconclusive.append('getter map failed: ' + traceback.format_exc()[-800:])
     cov.setdefault('states', 1); cov.setdefault('transitions', 1)
     cov['traces_validated_against_impl'] = 0
     cov['samples'] = [{'harness': h, 'result': r} for h, r in list(cov.get('harnesses', {}).items())[:6]] or [{}]
